@@ -19,6 +19,7 @@ import (
 	"github.com/tink-crypto/tink-go/v2/hybrid/ecies"
 	"github.com/tink-crypto/tink-go/v2/hybrid/hpke"
 	"github.com/tink-crypto/tink-go/v2/insecurecleartextkeyset"
+	"github.com/tink-crypto/tink-go/v2/internal/internalapi"
 	"github.com/tink-crypto/tink-go/v2/internal/protoserialization"
 	"github.com/tink-crypto/tink-go/v2/internal/verifharness/hlib"
 	"github.com/tink-crypto/tink-go/v2/internal/verifharness/kslib"
@@ -151,17 +152,7 @@ func keyProbe(pool *kslib.Pool, idx int, pt tinkpb.OutputPrefixType) func(k key.
 	if pk.Priv >= 0 {
 		cks = keysetOf(pool.Keys[pk.Priv].KD, pt)
 	}
-	handleOf := func(k key.Key) (*keyset.Handle, error) {
-		km := keyset.NewManager()
-		id, err := km.AddKey(k)
-		if err != nil {
-			return nil, err
-		}
-		if err := km.SetPrimary(id); err != nil {
-			return nil, err
-		}
-		return km.Handle()
-	}
+	handleOf := fixedHandleOf
 	if jf := jwtFactory(pk.Class); jf != nil {
 		var q any
 		var err error
@@ -234,8 +225,17 @@ func keyProbe(pool *kslib.Pool, idx int, pt tinkpb.OutputPrefixType) func(k key.
 	}
 }
 
+// fixedHandleOf: keyset.Manager.AddKey path with a fixed key id.
+func fixedHandleOf(k key.Key) (*keyset.Handle, error) {
+	km := keyset.NewManager()
+	if _, err := km.AddKeyWithOpts(k, internalapi.Token{}, keyset.AsPrimary(), keyset.WithFixedID(fixedKeyID)); err != nil {
+		return nil, err
+	}
+	return km.Handle()
+}
+
 func handleOfHex(k key.Key) string {
-	h, err := hlib.HandleOf(k)
+	h, err := fixedHandleOf(k)
 	if err != nil {
 		return "handle=err"
 	}
